@@ -23,8 +23,13 @@ A_EFLR, A_PRED, A_SUCC, A_ENCRYPTED, A_ENCPACKET, A_CHECKSUM, A_TRAILING, A_PADD
 
 def encode_sul(sul):
     """sul: {'seq': int 1..9999, 'seq_pad': ' ' | '0', 'version': b'V1.00', 'max_len': int, 'max_pad': ' '|'0', 'ident': 60 bytes}"""
-    seq = str(sul['seq']).rjust(4, sul.get('seq_pad', ' ')).encode('ascii')
-    mx = str(sul['max_len']).rjust(5, sul.get('max_pad', ' ')).encode('ascii')
+    # the pad is one character, or a two character pattern ('0 ', ' 0'): zeros and blanks mixed, which the label grammar of
+    # the reader and of the recogniser ([0 ]* then the number) both take
+    def rj(n, width, pad):
+        txt = str(n)
+        return ((pad * width)[:width - len(txt)] + txt).encode('ascii')
+    seq = rj(sul['seq'], 4, sul.get('seq_pad', ' '))
+    mx = rj(sul['max_len'], 5, sul.get('max_pad', ' '))
     ident = bytes(sul['ident'])
     assert len(seq) == 4 and len(mx) == 5 and len(ident) == 60 and len(sul['version']) == 5
     return seq + bytes(sul['version']) + b'RECORD' + mx + ident
@@ -127,8 +132,8 @@ def suls(draw, min_max_len=20):
         st.sampled_from([b'Default Storage Set', b'CUSTOMER', b'']).map(lambda s: s.ljust(60)),
         st.lists(st.sampled_from(list(PRINTABLE)), min_size=60, max_size=60).map(bytes)))
     version = b'V1.' + ('%02d' % draw(st.one_of(st.just(0), st.integers(0, 99)))).encode()
-    return {'seq': seq, 'seq_pad': draw(st.sampled_from([' ', ' ', '0'])), 'version': version, 'max_len': max_len,
-            'max_pad': draw(st.sampled_from([' ', '0', '0'])), 'ident': ident}
+    return {'seq': seq, 'seq_pad': draw(st.sampled_from([' ', ' ', '0', '0 ', ' 0'])), 'version': version, 'max_len': max_len,
+            'max_pad': draw(st.sampled_from([' ', '0', '0', '0 ', ' 0'])), 'ident': ident}
 
 
 @st.composite
